@@ -106,7 +106,9 @@
       [2]         pop:                                   "inv_pop";  q = pop();  "ret_pop 1 p id" | "ret_pop 0 0 0"
     Ghost event (no counterpart in the C++ log; checks/C11.py drops the lines "ev g_..." of the model log before
     comparing): "g_full n k c" emitted by the step P1 that decides a push fails: n = m_ItemCounter.value(),
-    k = number of heap cells 1..capacity holding a value at that instant, c = capacity. *)
+    k = number of heap cells 1..capacity holding a value at that instant, c = capacity;
+    "g_inc" emitted by the step P1 that calls inc(), "g_dec" / "g_emp" by the step Q1 that calls dec() / finds the
+    heap empty: the linearization points (under m_Lock) of the operations. *)
 From Coq Require Import ZArith List String Bool Lia PeanoNat.
 From LV Require Import Base.Conc Base.Events.
 Import ListNotations.
@@ -221,20 +223,20 @@ with lock_inner (fuel : nat) (l : nat) (bd : body) : prog (option V) :=
 Definition unlock (l : nat) (bd : body) : prog V := Act (a_unlock l bd) (fun v => Ret v).
 
 (** ** plain code of the individual steps *)
-Definition bufsize (cap : nat) : nat := S cap.         (* m_Heap.capacity() *)
+(* [bsz] below is m_Heap.capacity(), the number of cells of the buffer (cell 0 unused); capacity() = [cap] < bsz *)
 
 Definition occupied (g : G) (cap : nat) : nat :=
   List.length (filter (fun i => match nval (heap g i) with Some _ => true | None => false end) (seq 1 cap)).
 
 (** P1 *)
-Definition body_push_size (cap : nat) : body :=
+Definition body_push_size (cap bsz : nat) : body :=
   fun g =>
     if Z.leb (Z.of_nat cap) (bc (ctr g))
     then (g, mkV false 0 true None 0,
           [EvCli "g_full" [bc (ctr g); Z.of_nat (occupied g cap); Z.of_nat cap]])
     else let (s, c') := brc_inc (ctr g) in
          let i := Z.to_nat s in
-         (set_ctr g c', mkV false i false None (if Nat.ltb i (bufsize cap) then 0 else 2), []).
+         (set_ctr g c', mkV false i false None (if Nat.ltb i bsz then 0 else 2), [EvCli "g_inc" []]).
 
 (** P3 *)
 Definition body_push_store (t i : nat) (x : item) : body :=
@@ -263,12 +265,12 @@ Definition body_push_top (t : nat) : body :=
     if tag_eqb (ntag I) (TOwner t) then (set_cell g 1 TAvail (nval I), v0, []) else (g, v0, []).
 
 (** Q1: [vb] = empty, [vn] = nBottom *)
-Definition body_pop_size (cap : nat) : body :=
+Definition body_pop_size (bsz : nat) : body :=
   fun g =>
-    if Z.eqb (bc (ctr g)) 0 then (g, mkV false 0 true None 0, [])
+    if Z.eqb (bc (ctr g)) 0 then (g, mkV false 0 true None 0, [EvCli "g_emp" []])
     else let (s, c') := brc_dec (ctr g) in
          let i := Z.to_nat s in
-         (set_ctr g c', mkV false i false None (if Nat.ltb i (bufsize cap) then 0 else 2), []).
+         (set_ctr g c', mkV false i false None (if Nat.ltb i bsz then 0 else 2), [EvCli "g_dec" []]).
 
 (** Q2 with nBottom == 1, and Q4: take the value of cell [i] *)
 Definition body_take (i : nat) : body :=
@@ -294,10 +296,10 @@ Definition cmp_swap (p c : nat) : body :=
     end.
 
 (** R1: [vn] = 0 child Empty | 1 lock the right sibling next | 2 swapped with the parent | 3 not swapped *)
-Definition body_child (cap p c : nat) : body :=
+Definition body_child (bsz p c : nat) : body :=
   fun g =>
     if tag_eqb (ntag (heap g c)) TEmpty then (g, mkV false 0 false None 0, [])
-    else if Nat.ltb (S c) (bufsize cap) then (g, mkV false 1 false None 0, [])
+    else if Nat.ltb (S c) bsz then (g, mkV false 1 false None 0, [])
     else let '(g', v, es) := cmp_swap p c g in
          (g', mkV false (if vb v then 2 else 3) false None (verr v), es).
 
@@ -350,8 +352,8 @@ Fixpoint heapify_push (hf lf : nat) (t i : nat) : prog (option unit) :=
       else Ret (Some tt)
   end.
 
-Definition push (cap hf lf : nat) (t : nat) (x : item) : prog (option bool) :=
-  lock_ lf 0 (body_push_size cap) (fun v =>
+Definition push (cap bsz hf lf : nat) (t : nat) (x : item) : prog (option bool) :=
+  lock_ lf 0 (body_push_size cap bsz) (fun v =>
     if vb v then unlock_ 0 body_none (fun _ => Ret (Some false))
     else
       let i := vn v in
@@ -361,12 +363,12 @@ Definition push (cap hf lf : nat) (t : nat) (x : item) : prog (option bool) :=
       obind (heapify_push hf lf t i) (fun _ => Ret (Some true)))))).
 
 (** the loop of heapify_after_pop: [p] = nParent (locked), [c] = nChild *)
-Fixpoint heapify_pop (hf lf : nat) (cap : nat) (p c : nat) : prog (option unit) :=
+Fixpoint heapify_pop (hf lf : nat) (bsz : nat) (p c : nat) : prog (option unit) :=
   match hf with
   | O => Ret None
   | S hf' =>
-      if Nat.ltb c (bufsize cap) then
-        lock_ lf c (body_child cap p c) (fun v =>
+      if Nat.ltb c bsz then
+        lock_ lf c (body_child bsz p c) (fun v =>
           match vn v with
           | 0%nat => unlock_ c body_none (fun _ => unlock_ p body_none (fun _ => Ret (Some tt)))
           | 1%nat =>
@@ -374,16 +376,16 @@ Fixpoint heapify_pop (hf lf : nat) (cap : nat) (p c : nat) : prog (option unit) 
                 let chosen := if vb w then S c else c in
                 let other := if vb w then c else S c in
                 unlock_ other (cmp_swap p chosen) (fun u =>
-                  if vb u then unlock_ p body_none (fun _ => heapify_pop hf' lf cap chosen (2 * chosen))
+                  if vb u then unlock_ p body_none (fun _ => heapify_pop hf' lf bsz chosen (2 * chosen))
                   else unlock_ chosen body_none (fun _ => unlock_ p body_none (fun _ => Ret (Some tt)))))
-          | 2%nat => unlock_ p body_none (fun _ => heapify_pop hf' lf cap c (2 * c))
+          | 2%nat => unlock_ p body_none (fun _ => heapify_pop hf' lf bsz c (2 * c))
           | _ => unlock_ c body_none (fun _ => unlock_ p body_none (fun _ => Ret (Some tt)))
           end)
       else unlock_ p body_none (fun _ => Ret (Some tt))
   end.
 
-Definition pop (cap hf lf : nat) : prog (option (option item)) :=
-  lock_ lf 0 (body_pop_size cap) (fun v =>
+Definition pop (bsz hf lf : nat) : prog (option (option item)) :=
+  lock_ lf 0 (body_pop_size bsz) (fun v =>
     if vb v then unlock_ 0 body_none (fun _ => Ret (Some None))
     else
       let b := vn v in
@@ -397,23 +399,23 @@ Definition pop (cap hf lf : nat) : prog (option (option item)) :=
         unlock_ 0 (body_take b) (fun w =>
         unlock_ b (body_pop_top (vi w)) (fun u =>
           if vb u then unlock_ 1 body_none (fun _ => Ret (Some (vi u)))
-          else obind (heapify_pop hf lf cap 1 2) (fun _ => Ret (Some (vi u)))))))).
+          else obind (heapify_pop hf lf bsz 1 2) (fun _ => Ret (Some (vi u)))))))).
 
 Inductive op := OPush (x : item) | OPop.
 
 (** result: [true] = the operation returned, the thread goes on with its next operation *)
-Definition run_op (cap hf lf : nat) (t : nat) (o : op) : prog bool :=
+Definition run_op (cap bsz hf lf : nat) (t : nat) (o : op) : prog bool :=
   match o with
   | OPush x =>
       Emit [EvCli "inv_push" (zitem x)]
-        (bind (push cap hf lf t x) (fun r =>
+        (bind (push cap bsz hf lf t x) (fun r =>
            match r with
            | Some b => Emit [EvCli "ret_push" ((if b then 1 else 0) :: zitem x)] (Ret true)
            | None => Emit [EvCli "stopped" []] (Ret false)
            end))
   | OPop =>
       Emit [EvCli "inv_pop" []]
-        (bind (pop cap hf lf) (fun r =>
+        (bind (pop bsz hf lf) (fun r =>
            match r with
            | Some (Some x) => Emit [EvCli "ret_pop" (1 :: zitem x)] (Ret true)
            | Some None => Emit [EvCli "ret_pop" [0; 0; 0]] (Ret true)
@@ -421,25 +423,25 @@ Definition run_op (cap hf lf : nat) (t : nat) (o : op) : prog bool :=
            end))
   end.
 
-Fixpoint run_ops (cap hf lf : nat) (t : nat) (os : list op) : prog unit :=
+Fixpoint run_ops (cap bsz hf lf : nat) (t : nat) (os : list op) : prog unit :=
   match os with
   | [] => Ret tt
-  | o :: r => bind (run_op cap hf lf t o) (fun ok => if ok then run_ops cap hf lf t r else Ret tt)
+  | o :: r => bind (run_op cap bsz hf lf t o) (fun ok => if ok then run_ops cap bsz hf lf t r else Ret tt)
   end.
 
-Definition thread_prog (cap hf lf : nat) (t : nat) (os : list op) : Conc.thread G V ev :=
-  Act a_begin (fun _ => run_ops cap hf lf t os).
+Definition thread_prog (cap bsz hf lf : nat) (t : nat) (os : list op) : Conc.thread G V ev :=
+  Act a_begin (fun _ => run_ops cap bsz hf lf t os).
 
 Definition init : G := mkG false brc_init (fun _ => mkN false TEmpty None).
 
-Fixpoint thread_progs (cap hf lf : nat) (t : nat) (ths : list (list op)) : list (Conc.thread G V ev) :=
+Fixpoint thread_progs (cap bsz hf lf : nat) (t : nat) (ths : list (list op)) : list (Conc.thread G V ev) :=
   match ths with
   | [] => []
-  | os :: r => thread_prog cap hf lf t os :: thread_progs cap hf lf (S t) r
+  | os :: r => thread_prog cap bsz hf lf t os :: thread_progs cap bsz hf lf (S t) r
   end.
 
-Definition init_cfg (cap hf lf : nat) (ths : list (list op)) : Conc.config G V ev :=
-  Conc.Cfg init (thread_progs cap hf lf 0 ths) [].
+Definition init_cfg (cap bsz hf lf : nat) (ths : list (list op)) : Conc.config G V ev :=
+  Conc.Cfg init (thread_progs cap bsz hf lf 0 ths) [].
 
 (** ** entry point for the extracted driver *)
 Definition decode_op (o : list Z) : option op :=
@@ -455,11 +457,14 @@ Fixpoint decode_ops (os : list (list Z)) : list op :=
   | o :: r => match decode_op o with Some x => x :: decode_ops r | None => decode_ops r end
   end.
 
-(** cfg = [capacity(); lock spin fuel; heapify loop fuel] *)
+(** cfg = [capacity(); lock spin fuel; heapify loop fuel; variant (harness only); buffer size m_Heap.capacity()]
+    the buffer size defaults to capacity() + 1; the real code has capacity() = floor2(buffer size) - 1, so a buffer
+    whose size is not a power of two has unused cells capacity()+1 .. size-1 that heapify_after_pop still visits *)
 Definition run_case (cfg : list Z) (ths : list (list (list Z))) (sched : list nat) (fuel : nat)
   : list (nat * ev) * bool :=
   let cap := Z.to_nat (nth 0 cfg 1) in
   let lf := Z.to_nat (nth 1 cfg 1000) in
   let hf := Z.to_nat (nth 2 cfg 1000) in
-  let r := Conc.run fuel 0 sched (init_cfg cap hf lf (map decode_ops ths)) in
+  let bsz := match nth_error cfg 4 with Some z => Z.to_nat z | None => S cap end in
+  let r := Conc.run fuel 0 sched (init_cfg cap bsz hf lf (map decode_ops ths)) in
   (Conc.trace (fst r), snd r).
